@@ -4,6 +4,7 @@ import (
 	"context"
 	"errors"
 	"fmt"
+	"net"
 	"sync"
 	"sync/atomic"
 	"testing"
@@ -39,6 +40,20 @@ type cloudDouble struct {
 	gate    chan struct{}
 	parked  atomic.Int32
 	once    sync.Once
+}
+
+// slowCloseConn is a transport whose first Close takes a moment before it releases the conn.
+type slowCloseConn struct {
+	*vkit.BufConn
+	d     time.Duration
+	calls atomic.Int32
+}
+
+func (s *slowCloseConn) Close() error {
+	if s.calls.Add(1) == 1 {
+		time.Sleep(s.d)
+	}
+	return s.BufConn.Close()
 }
 
 func (c *cloudDouble) open() { c.once.Do(func() { close(c.gate) }) }
@@ -99,6 +114,14 @@ func genBridge(t *rapid.T) Round {
 		// deferred Close runs: every connection ever attached must end up closed
 		r.P["lateAttach"] = 1
 		r.Paths = drawPaths(t, []string{"source-eof", "parent-cancel"}, 1)
+	} else if r.P["variant"] == 1 {
+		// the target attaches at the instant the closers arrive (Start leaves its wait and takes
+		// its forwarder snapshot while Close tears down), and the target transport's Close takes
+		// about a millisecond (close handshake, trailer flush)
+		r.P["slowTarget"] = 1
+		if !r.has("target-arrives") {
+			r.Paths = append(r.Paths, "target-arrives")
+		}
 	}
 	if r.P["variant"] == 0 && rapid.IntRange(0, 6).Draw(t, "pathFirst") == 0 {
 		r.P["pathFirst"] = 1 // the completion path fires alone first and must close the bridge by itself
@@ -145,10 +168,14 @@ func runBridge(r Round) *outcome {
 	tgtPeer, tgtConn := vkit.NewBufConnPair("10.2.0.2:2222", "10.0.0.1:8000")
 	defer func() { srcPeer.Close(); tgtPeer.Close(); srcConn.Close(); tgtConn.Close() }()
 	srcStream := stream.NewStreamProcessor(srcConn, srcConn, parent)
-	tgtStream := stream.NewStreamProcessor(tgtConn, tgtConn, parent)
+	var tgtNet net.Conn = tgtConn
+	if r.p("slowTarget") == 1 {
+		tgtNet = &slowCloseConn{BufConn: tgtConn, d: time.Millisecond}
+	}
+	tgtStream := stream.NewStreamProcessor(tgtNet, tgtNet, parent)
 	const tid = "c16-bridge"
 	srcTC := session.CreateTunnelConnection("conn-src", srcConn, srcStream, 7, "m1", tid)
-	tgtTC := session.CreateTunnelConnection("conn-tgt", tgtConn, tgtStream, 8, "m1", tid)
+	tgtTC := session.CreateTunnelConnection("conn-tgt", tgtNet, tgtStream, 8, "m1", tid)
 	b := session.NewTunnelBridge(parent, &session.TunnelBridgeConfig{
 		TunnelID: tid, MappingID: "m1", SourceTunnelConn: srcTC, SourceConn: srcConn, SourceStream: srcStream, CloudControl: cc,
 		BandwidthLimit: int64(r.p("bw")) * 1024,
